@@ -120,5 +120,4 @@ print("VIOLATION: caller on loop B never finishes (%s): computing loop A was "
       "dead-lock forever (no value, no exception, no 60 s recovery); the "
       "property promises that callers on other loops recover by recomputing "
       "instead of waiting forever." % where)
-assert "event_making_lock" in stack
 os._exit(1)
